@@ -54,6 +54,7 @@ def run(ctx):
         from harness import codec_dispatch as D
         mode, K.DISPATCH_TAB = D.translate_dispatch(ctx)
         wmode = D.translate_writer(ctx)
+        D.translate_state(ctx)
         del K.WRITER_OBS[:]
         cases = K.generate(ctx.rng, ctx.quick())
         K.check_cases(ctx, "C11", cases, os.path.join(ctx.scratch, "real"), sanitize=False)
